@@ -4,7 +4,7 @@ import cxx_specs as XS
 
 PROPERTY = "C02"
 LEVEL = "proof"
-EXPLANATION = ""
+EXPLANATION = ('Proof that randomx_vm::initialize derives the program configuration exactly as specification 4.5 says (for every 128-byte entropy block) and that the public hash driver (calculate_hash / first / next / last) performs the steps of specification chapter 2 in order, with the Blake2b / AES / execute steps as contract stand-ins whose own contracts are C11 / C12 / C05.')
 TRUSTED = ["end-to-end composition of the component contracts into randomx(K,H) == Spec(K,H) (meta-step)",
            "determinism across builds and compilers (no obligation can speak about two builds)"]
 ASSUMPTIONS = []
